@@ -785,6 +785,7 @@ noncomputable def freshSolves (sol : Solver ℝ ns nc) (S : Sys ℝ ns nc) : Lis
   | .solve P dt x0 ubar :: rest => lqr sol S P dt x0 ubar :: freshSolves sol S rest
   | .setClock _ :: rest => freshSolves sol S rest
   | .forward _ :: rest => freshSolves sol S rest
+  | .failed _ :: rest => freshSolves sol S rest
 
 /-! ### the solver contract is satisfiable in every dimension (non-vacuity of `SolverOK`) -/
 
